@@ -11,6 +11,8 @@ from .scratch import Scratch, run_rule
 
 # (id, properties that must report it, file, old, new, description)
 MUTANTS = [
+    ('variance-unclamped', ['C01', 'C04', 'C05'], 'src/mean.rs', '        if variance < F::zero() {\n            F::zero()\n        } else {\n            variance\n        }', '        variance',
+     'the one-pass variance reaches the square root unclamped (the defect repaired by 4307b4e: a constant sample is refused)'),
     ('dof-n', ['C01', 'C06'], 'src/mean.rs', 'let degrees_of_freedom = n - 1.;', 'let degrees_of_freedom = n;', 'n instead of n-1 degrees of freedom'),
     ('sem-n-1', ['C01'], 'src/mean.rs', 'let std_err_mean = std_dev / n.sqrt();', 'let std_err_mean = std_dev / (n - 1.).sqrt();', 'standard error with sqrt(n-1)'),
     ('abs-span', ['C01', 'C06'], 'src/stats.rs', '(mean - span, mean + span)', '(mean - span.abs(), mean + span.abs())', '|span| (wrong for one-sided levels below 1/2)'),
